@@ -107,8 +107,8 @@ Definition policy_in (tbl : list (Z * Z)) (p : Z * Z) : bool := existsb (fun q =
 (* MinidumpContext::read (C02: layout by architecture, context_flags checked) followed by get_instruction_pointer /
    get_stack_pointer.  The two registers are found BY FIELD NAME in the structure as format.rs declares it (Gen/Layouts.v: layout
    L_CONTEXT_* and field names N_CONTEXT_*, regenerated on every run): CONTEXT_X86 eip / esp, CONTEXT_AMD64 rip / rsp, CONTEXT_ARM
-   iregs[15] / iregs[13], CONTEXT_ARM64 and CONTEXT_ARM64_OLD pc / sp, CONTEXT_MIPS epc / iregs[29].
-   PPC / PPC64 / SPARC: not interpreted here (None). *)
+   iregs[15] / iregs[13], CONTEXT_ARM64 and CONTEXT_ARM64_OLD pc / sp, CONTEXT_MIPS epc / iregs[29], CONTEXT_PPC and CONTEXT_PPC64
+   srr0 / gpr[1], CONTEXT_SPARC pc / g_r[14]: every architecture MinidumpContext::read has an arm for. *)
 From Coq Require Import String.
 (* how many integers a layout flattens to (vflat: one per scalar, arrays element by element) *)
 Fixpoint lcount (L : layout) : nat :=
@@ -137,6 +137,9 @@ Definition ctx_regs_named (arch : Z) : option (nat * nat) :=
   else if arch =? 12 then reg_pos L_CONTEXT_ARM64 N_CONTEXT_ARM64 ("pc"%string, 0%nat) ("sp"%string, 0%nat)
   else if arch =? 32771 then reg_pos L_CONTEXT_ARM64_OLD N_CONTEXT_ARM64_OLD ("pc"%string, 0%nat) ("sp"%string, 0%nat)
   else if arch =? 1 then reg_pos L_CONTEXT_MIPS N_CONTEXT_MIPS ("epc"%string, 0%nat) ("iregs"%string, 29%nat)
+  else if arch =? 3 then reg_pos L_CONTEXT_PPC N_CONTEXT_PPC ("srr0"%string, 0%nat) ("gpr"%string, 1%nat)
+  else if arch =? 32770 then reg_pos L_CONTEXT_PPC64 N_CONTEXT_PPC64 ("srr0"%string, 0%nat) ("gpr"%string, 1%nat)
+  else if arch =? 32769 then reg_pos L_CONTEXT_SPARC N_CONTEXT_SPARC ("pc"%string, 0%nat) ("g_r"%string, 14%nat)
   else None.
 (* the same positions as numbers (what is extracted: Coq strings would shadow OCaml's in the driver); equal to [ctx_regs_named] for
    every architecture (c14_context_registers_by_name) *)
@@ -147,6 +150,9 @@ Definition ctx_regs (arch : Z) : option (nat * nat) :=
   else if arch =? 12 then Some (34%nat, 33%nat)
   else if arch =? 32771 then Some (33%nat, 32%nat)
   else if arch =? 1 then Some (44%nat, 31%nat)
+  else if arch =? 3 then Some (1%nat, 4%nat)
+  else if arch =? 32770 then Some (1%nat, 4%nat)
+  else if arch =? 32769 then Some (35%nat, 16%nat)
   else None.
 Definition ctx_of_bytes (e : endian) (arch : Z) (b : list Z) : option ctx :=
   match ctx_regs arch with
